@@ -44,6 +44,12 @@ impl<'i, 't, 'a> StepParser<'i, 't, 'a> {
         &mut self,
     ) -> Result<StepToken<'i>, BasicParseError<'i>> {
         let position = self.position();
+        #[cfg(feature = "verif-hooks")]
+        crate::verif::emit(crate::verif::Event::CssStep {
+            kind: "peek",
+            line: position.line,
+            utf16_col: position.utf16_col,
+        });
         let state = self.parser.state();
         let ret = self.parser.next_including_whitespace().map(|x| x.clone());
         self.parser.reset(&state);
@@ -59,6 +65,12 @@ impl<'i, 't, 'a> StepParser<'i, 't, 'a> {
         &mut self,
     ) -> Result<StepToken<'i>, BasicParseError<'i>> {
         let position = self.position();
+        #[cfg(feature = "verif-hooks")]
+        crate::verif::emit(crate::verif::Event::CssStep {
+            kind: "next",
+            line: position.line,
+            utf16_col: position.utf16_col,
+        });
         let token = self.parser.next_including_whitespace().map(|x| x.clone())?;
         Ok(StepToken { token, position })
     }
